@@ -11,7 +11,7 @@
 (***************************************************************************)
 EXTENDS Naturals, Integers, Sequences, FiniteSets, TLC
 
-CONSTANTS ReserveK, AppendK, MemberCounts, FieldCounts, Orders, Ranks, NameKinds, NameLens, MaxOps, KeepHist
+CONSTANTS ReserveK, AppendK, GapK, MemberCounts, FieldCounts, Orders, Ranks, NameKinds, NameLens, MaxOps, KeepHist
 FAIL == -1
 CeilK      == 2097152 - 8          \* 2^31 bytes in KiB, minus the margin
 MaxMembers == 65535
@@ -53,6 +53,15 @@ AppendBig(k) ==
        THEN /\ eofK' = eofK + k /\ Log("AppendBig", [k |-> k], [ret |-> 0, sane |-> TRUE])
        ELSE /\ Log("AppendBig", [k |-> k], [ret |-> FAIL, sane |-> TRUE]) /\ UNCHANGED eofK
     /\ UNCHANGED <<st, slackK, nres, nmem>>
+\* a new appendable element at the end of the file (1 byte), Hseek g KiB beyond its end (nothing is written: the gap
+\* is sparse), then one Hwrite of k KiB there: the element grows to g + k KiB or the write is refused and the element
+\* keeps its byte
+SeekAppend(g, k) ==
+    /\ st = "open" /\ Determined(g + k)
+    /\ IF eofK + slackK + g + k <= CeilK
+       THEN /\ eofK' = eofK + g + k /\ Log("SeekAppend", [g |-> g, k |-> k], [ret |-> 0, sane |-> TRUE])
+       ELSE /\ Log("SeekAppend", [g |-> g, k |-> k], [ret |-> FAIL, sane |-> TRUE]) /\ UNCHANGED eofK
+    /\ UNCHANGED <<st, slackK, nres, nmem>>
 \* n x Vaddtagref on one vgroup
 AddMembers(n) ==
     /\ st = "open"
@@ -91,6 +100,7 @@ Probe == /\ st = "open" /\ Log("Probe", [room |-> eofK + slackK + 400 <= CeilK],
 Next == \/ Setup \/ Probe
         \/ \E k \in ReserveK : Reserve(k)
         \/ \E k \in AppendK : AppendBig(k)
+        \/ \E g \in GapK, k \in AppendK : SeekAppend(g, k)
         \/ \E n \in MemberCounts : AddMembers(n)
         \/ \E n \in FieldCounts : Fields(n)
         \/ \E sz \in {1, 2, 4, 8}, o \in Orders : Order(sz, o)
